@@ -24,6 +24,7 @@ var kinds = map[string]kind{
 	"cmt":  {genCmt, runCmt},
 	"txn":  {genTxn, runTxn},
 	"eos":  {genEos, runEos},
+	"cls":  {genCls, runCls},
 }
 
 func TestMain(m *testing.M) {
